@@ -38,10 +38,20 @@ MANIFEST = {
             "round trip also runs into populated contexts (T2 with YangLib.preload; the theorem's c0 may hold implemented modules in "
             "any feature state; the features argument NULL / * / array is modelled) and, as oracle yl-variants, with every option "
             "of the rebuilding context, callback / search directory sources, yldata / ylmem / ylpath in JSON and XML, *ctx NULL or "
-            "existing, augment / deviation / import dependencies and if-feature dependent features.",
+            "existing, augment / deviation / import dependencies and if-feature dependent features. Submodule graphs (YANG 1.0 "
+            "injected includes, chains, diamonds, includes between submodules in 1.1): YangLib.includes_order transcribes "
+            "lysp_load_submodules (as of /repo 272016c), tied by T2 through the feature array order read back from the context; "
+            "C19_includes_array_is_closure and C19_description_lists_closure_features: the description lists exactly the enabled "
+            "features of the module and of the submodules of its include closure, each once (the former refutation witness is a "
+            "regression example); the oracle compares "
+            "the described features / submodules with lys_feature_value over all features and the includes of the context. "
+            "Every generated module exports a grouping whose leaves depend on its features and that wraps the groupings of its "
+            "imports, so compiled trees depend on features reached through import-only modules; yl-variants also changes features "
+            "AFTER the loads (lys_set_implemented on / off / on-then-off) before describing and rebuilding.",
     "note": "Not modelled: compilation, deviations, submodule entries, datastore list, search directories, "
             "LY_CTX_ALL_IMPLEMENTED/REF_IMPLEMENTED, the revision-less import logic beyond the unambiguous case, the exact "
-            "number of counter events per operation. Known findings: yl-hash-concat, yl-import-only-rev; fixed: yl-hash-fi "
+            "number of counter events per operation. Known findings: yl-hash-concat, yl-import-only-rev, yl-augment-order; fixed: "
+            "yl-sub-include-skipped (272016c), yl-hash-fi "
             "(c8adb05), yl-cc-explicit-compile (d4e18d7).",
     "technique": "Coq proof over hand-written model + differential correspondence (extracted OCaml vs C) + API oracles",
 }
